@@ -101,6 +101,14 @@ class ModuleRef:
         self.module = module
 
 
+class NativeCallable:
+    """Bound method of a concrete numpy value."""
+
+    def __init__(self, fn):
+        self.fn = fn
+        self.name = getattr(fn, "__name__", "native")
+
+
 class Closure:
     """Function value with captured environment (nested def / lambda)."""
 
@@ -161,7 +169,9 @@ class Interp:
         if isinstance(v, int) and kind in ("int", "real"):
             return z3.IntVal(v) if kind == "int" else z3.RealVal(v)
         if isinstance(v, float) and kind == "real":
-            return z3.RealVal(repr(v))
+            return z3.RealVal(repr(float(v)))
+        if isinstance(v, np.integer) and kind in ("int", "real"):
+            return z3.IntVal(int(v)) if kind == "int" else z3.RealVal(int(v))
         return None
 
     def is_sym(self, *vs):
@@ -268,6 +278,10 @@ class Interp:
                 return v
             raise PyRaise("AttributeError", attr)
         if isinstance(base, ExtRef):
+            if base.name == "math" and attr in ("pi", "e", "inf", "tau"):
+                import math
+
+                return getattr(math, attr)
             if base.name == "eminus" or base.name.startswith("eminus."):
                 try:
                     return ModuleRef(self.w.module(f"{base.name}.{attr}"))
@@ -287,6 +301,10 @@ class Interp:
             if a is not None:
                 return self.eval(a, Env(c.module))
             raise PyRaise("AttributeError", attr)
+        if isinstance(base, (np.ndarray, np.generic)) and base.dtype != object:
+            # concrete numpy values are handled by numpy itself
+            v = getattr(base, attr)
+            return NativeCallable(v) if callable(v) else v
         if isinstance(base, (str, list, tuple, dict, set, int, float, SymSeq)) or hasattr(base, "_zpy"):
             return PyMethod(base, attr)
         if getattr(base, "_zplain", False):
@@ -386,6 +404,10 @@ class Interp:
             return self.call_node(f.node, f.module, args, kwargs, name=f.name, closure_env=f.env)
         if isinstance(f, Cls):
             return self.instantiate(f, args, kwargs)
+        if isinstance(f, NativeCallable):
+            if self.is_sym(*args) or self.is_sym(*kwargs.values()):
+                raise OutsideSubset("symbolic argument to a method of a concrete numpy array")
+            return f.fn(*args, **kwargs)
         if isinstance(f, Builtin):
             return f.fn(self, args, kwargs)
         if isinstance(f, PyMethod):
